@@ -241,6 +241,10 @@ def register(R):
                 size_term = optval(size)
             out['multipart_iff_size_at_least_threshold'] = (
                 (size_term >= thr) if multi else (size_term < thr), ['C14'])
+            if cls == 'UploadNonSeekableInputManager':
+                d = c.new.obj(mgr).fields['_initial_data']
+                out['probe_buffer_at_most_threshold_bytes'] = (
+                    B(True) if isinstance(d, bytes) else (to_int_term(d.hi) - to_int_term(d.lo) <= thr), ['C11'])
         return out
 
     R.contract(
@@ -387,6 +391,10 @@ def register(R):
                         to_int_term(d.lo) == nxt0, to_int_term(d.hi) == nxt1, B(d.base == 'src')), ['C01'])
                     out['window_covers_the_whole_buffer'] = (z3.And(to_int_term(start) == 0, to_int_term(size) == to_int_term(d.hi) - to_int_term(d.lo)), ['C01'])
                     out['buffer_not_larger_than_chunksize'] = (to_int_term(d.hi) - to_int_term(d.lo) <= chunk, ['C11'])
+                    cfg = st1.obj(outer1['config'])
+                    cc, th = cfg.fields['multipart_chunksize'], cfg.fields['multipart_threshold']
+                    out['buffer_within_the_documented_bound_max_of_chunksize_and_threshold'] = (
+                        to_int_term(d.hi) - to_int_term(d.lo) <= z3.If(cc >= th, cc, th), ['C11'])
             return out
         return chk
 
@@ -488,6 +496,7 @@ def register(R):
             d = c.new.obj(c.a_upload_input_manager).fields['_initial_data']
             empty = B(True) if isinstance(d, bytes) else (to_int_term(d.hi) == to_int_term(d.lo))
             out['source_read_to_the_end'] = (z3.And(g['pos'] == g['len'], empty), ['C01'])
+        out['at_most_10000_parts'] = (nparts <= 10000, ['C14'])
         # chunk size comes from the adjuster (C14) applied to the configured chunk size and the size
         adj = calls(tr, 'ChunksizeAdjuster.adjust_chunksize')
         out['chunksize_is_adjusted_configured_chunksize'] = (B(
@@ -820,6 +829,677 @@ def register(R):
         st.assume(size.val <= 5 * TiB)
         st.assume(st.obj(args['config']).fields['multipart_chunksize'] < TWO53)
     ccm.setup = cp_multi_setup
+
+    # ================================================================== download: GetObjectTask
+    DOM = f'{DL}:DownloadOutputManager'
+    DFN, DSK, DNS, DSP = (f'{DL}:DownloadFilenameOutputManager', f'{DL}:DownloadSeekableOutputManager',
+                          f'{DL}:DownloadNonSeekableOutputManager', f'{DL}:DownloadSpecialFilenameOutputManager')
+    R.add_fields(DOM, _osutil=ObjT(f'{UT}:OSUtils'), _transfer_coordinator=ObjT(TC, shared=True), _io_executor=ExtT('bounded_executor'))
+    R.add_fields(DFN, _final_filename=OptT(ExtT('fileobj_or_name')), _temp_filename=OptT(ExtT('str')), _temp_fileobj=OptT(ExtT('destfile')))
+    R.add_fields(DNS, _defer_queue=ObjT(f'{DL}:DeferQueue'), _io_submit_lock=LockT())
+    R.add_fields(DSP, _fileobj=OptT(ExtT('destfile')))
+    MGR_DL = {'download_output_manager': [('filename', ObjT(DFN)), ('seekable', ObjT(DSK)), ('nonseekable', ObjT(DNS)), ('special', ObjT(DSP))]}
+
+    def dl_len(d):
+        return to_int_term(d.hi) - to_int_term(d.lo)
+
+    def streamed(st, fileobj):
+        key = ('streamed', getattr(fileobj, 'label', str(fileobj)))
+        if key not in st.ghost:
+            v = z3.Int(fresh_name('streamed'))
+            st.assume(v >= 0)
+            st.ghost[key] = v
+        return st.ghost[key]
+    R.streamed = streamed
+
+    DATA_AT_OFFSET = lambda c: [('data_is_the_objects_bytes_at_that_offset',
+                                 z3.And(B(c.a_data.base == 'obj'), to_int_term(c.a_data.lo) == to_int_term(c.a_offset)), ['C02', 'C16'])]
+    IO_PARAMS = dict(fileobj=ExtT('destfile'), data=BytesT('obj'), offset=Int)
+    # offset-addressed destinations: a write puts data at its offset (idempotent when repeated)
+    R.contract(f'{DOM}.queue_file_io_task', params=dict(IO_PARAMS), requires=DATA_AT_OFFSET,
+               raise_when={'Exception': lambda c: None})
+    R.contract(f'{DOM}.get_io_write_task', params=dict(IO_PARAMS), requires=DATA_AT_OFFSET, returns=ExtT('io_task'))
+    R.external('io_task', **{'()': ExtSpec(raises=())})   # Task.__call__ never propagates (C03)
+
+    # streaming destinations: the write task appends
+    def ns_write_effects(c, st):
+        key = ('streamed', c.a_fileobj.label)
+        cur = streamed(st, c.a_fileobj)
+        st.ghost[key] = z3.simplify(cur + dl_len(c.a_data))
+        return Opaque(fresh_name('io_task'), kind='io_task')
+
+    R.contract(f'{DNS}.get_io_write_task', params=dict(IO_PARAMS),
+               requires=lambda c: [('appended_data_is_the_next_unwritten_bytes_of_the_object', z3.And(
+                   B(c.a_data.base == 'obj'), to_int_term(c.a_data.lo) == streamed(c.old.st, c.a_fileobj)), ['C02', 'C16'])],
+               effects=ns_write_effects)
+    R.contract(f'{DNS}.queue_file_io_task', params=dict(IO_PARAMS), requires=DATA_AT_OFFSET,
+               raise_when={'Exception': lambda c: None})
+
+    # immediate writes of streaming destinations go through the defer queue (each byte once, in order)
+    R.mark_inline(f'{DOM}.get_io_write_tasks')
+    TASKS_T = ListOfT(ExtT('io_task'), name='io_tasks')
+
+    def released_eq_streamed(view, mgr, fileobj):
+        q = view.obj(view.f(mgr, '_defer_queue'))
+        return to_int_term(q.fields['_next_offset']) == streamed(view.st, fileobj)
+
+    def ns_tasks_loop_inv(l):
+        from .c16 import writes_view
+        st = l.st
+        n, off, lo, hi = writes_view(st, l.local('writes'))
+        idx = to_int_term(l.index)
+        nxt0 = l.ghost.setdefault('nxt0', streamed(l.pre, l.local('fileobj')))
+        th = st.obj(l.local('tasks'))
+        tl = to_int_term(th.meta['len']) if th.kind == 'slist' else z3.IntVal(len(th.items))
+        return {
+            'stream_position_follows_the_released_writes': streamed(st, l.local('fileobj')) == z3.If(idx == 0, nxt0, hi(idx - 1)),
+            'one_task_per_released_write': tl == idx,
+        }
+
+    def ns_tasks_havoc(l):
+        fo = l.local('fileobj')
+        l.st.ghost[('streamed', fo.label)] = z3.Int(fresh_name('streamed'))
+
+    def ns_tasks_post(c):
+        return {
+            'everything_released_is_written_in_order': released_eq_streamed(c.new, c.self, c.a_fileobj),
+            'stream_only_grows': streamed(c.new.st, c.a_fileobj) >= streamed(c.old.st, c.a_fileobj),
+        }
+
+    def ns_tasks_effects(c, st):
+        key = ('streamed', c.a_fileobj.label)
+        st.ghost[key] = z3.Int(fresh_name('streamed'))
+        q = st.obj(st.obj(c.self).fields['_defer_queue'])
+        q.fields['_next_offset'] = z3.Int(fresh_name('next_offset'))
+        return c.engine.make_symbolic(TASKS_T, 'io_tasks', st)
+
+    R.contract(
+        f'{DNS}.get_io_write_tasks', props=['C02', 'C16'], params=dict(IO_PARAMS),
+        requires=lambda c: DATA_AT_OFFSET(c) + [('released_so_far_is_what_was_written', released_eq_streamed(c.old, c.self, c.a_fileobj), ['C02', 'C16'])],
+        setup=lambda eng, st, args, self_val: streamed(st, args['fileobj']),
+        ensures=ns_tasks_post, effects=ns_tasks_effects, raises={},
+        loops={0: LoopSpec(invariant=ns_tasks_loop_inv, havoc_heap=ns_tasks_havoc, local_types={'tasks': TASKS_T})},
+    )
+    R.contract(f'{DL}:ImmediatelyWriteIOGetObjectTask._handle_io', params={}, inline=True, loops={0: trivial_loop()})
+
+    # the response body of one GetObject attempt: obj[start : start+blen], read in pieces of ANY size
+    RETRYABLE = ('socket.timeout', 'botocore.exceptions.IncompleteReadError')
+
+    def body_state(st, recv):
+        key = ('body', recv.label)
+        if key not in st.ghost:
+            ln = z3.Int(fresh_name('body_len'))
+            st.assume(ln >= 0)
+            st.ghost[key] = {'pos': z3.IntVal(0), 'len': ln, 'start': st.ghost['get_object_start']}
+        else:
+            st.ghost[key] = dict(st.ghost[key])
+        return st.ghost[key]
+    R.body_state = body_state
+
+    def body_read(eng, st, recv, args, kwargs):
+        g = body_state(st, recv)
+        amt = to_int_term(args[0])
+        n = z3.Int(fresh_name('nread'))
+        rem = g['len'] - g['pos']
+        # network reads return anything from 1 byte to the requested amount; 0 only at the end of the body
+        st.assume(z3.And(n >= 0, n <= amt, n <= rem, z3.Implies(z3.And(rem > 0, amt > 0), n > 0)))
+        from pyvc.values import BytesV
+        d = BytesV('obj', z3.simplify(g['start'] + g['pos']), z3.simplify(g['start'] + g['pos'] + n))
+        g['pos'] = z3.simplify(g['pos'] + n)
+        return d
+
+    R.external('respdict', read=ExtSpec(returns=body_read, raises=RETRYABLE + ('Exception',)))
+    R.add_fields(f'{UT}:StreamReaderProgress', _stream=ExtT('respdict'), _callbacks=ListOfT(ExtT('progress_cb')))
+    R.add_fields(f'{DL}:DownloadChunkIterator', _body=ObjT(f'{UT}:StreamReaderProgress'), _chunksize=Int, _num_reads=Int)
+    R.mark_inline(f'{UT}:StreamReaderProgress.__init__', f'{UT}:StreamReaderProgress.read',
+                  f'{DL}:DownloadChunkIterator.__init__', f'{DL}:DownloadChunkIterator.__iter__',
+                  f'{DL}:DownloadChunkIterator.__next__', f'{DL}:GetObjectTask._handle_io')
+    R.contract('s3transfer.bandwidth:BandwidthLimitedStream.read', params=dict(amount=Int), returns=BytesT('obj'),
+               raise_when={'Exception': lambda c: None}, inline=True)
+
+    GOT = f'{DL}:GetObjectTask'
+    DCI = f'{DL}:DownloadChunkIterator'
+
+    def dci_setup(eng, st, args, self_val):
+        st.ghost['get_object_start'] = z3.IntVal(0)
+        st.assume(st.obj(self_val).fields['_num_reads'] >= 0)
+        st.assume(st.obj(self_val).fields['_chunksize'] > 0)
+
+    R.contract(
+        f'{DCI}.__next__', props=['C02'], params={}, inline=True, setup=dci_setup,
+        ensures=lambda c: {
+            'one_more_read': c.newf('_num_reads') == c.oldf('_num_reads') + 1,
+            # even an empty object delivers one (empty) chunk, so that its destination gets created
+            'yields_data_or_the_single_empty_chunk_of_an_empty_object': z3.Or(
+                dl_len(c.result) > 0, c.newf('_num_reads') == 1),
+        },
+        raises={'StopIteration': lambda c: {'only_after_the_first_read_and_at_end_of_body': c.newf('_num_reads') > 1},
+                'Exception': lambda c: {}, 'socket.timeout': lambda c: {}},
+    )
+
+    def body_of_attempt(st):
+        keys = [k for k in st.ghost if isinstance(k, tuple) and k[0] == 'body']
+        return st.ghost[keys[-1]] if keys else None
+
+    def ensure_body(l):
+        """The ghost of the current attempt's body exists from the moment the iterator is built."""
+        st = l.st
+        sb = st.env['streaming_body']
+        stream = st.obj(sb).fields['_stream'] if isinstance(sb, Ref) and st.obj(sb).kind == 'obj' else None
+        if isinstance(stream, Opaque):
+            body_state(st, stream)
+            if l.pre is not None and ('body', stream.label) not in l.pre.ghost:
+                l.pre.ghost[('body', stream.label)] = dict(st.ghost[('body', stream.label)])
+
+    def got_inner_inv(l):
+        if body_of_attempt(l.st) is None:
+            ensure_body(l)
+        g = body_of_attempt(l.st)
+        out = {'write_position_tracks_body_position': to_int_term(l.local('current_index')) == to_int_term(l.local('start_index')) + g['pos'],
+               'body_position_in_range': z3.And(g['pos'] >= 0, g['pos'] <= g['len'])}
+        out.update(stream_link(l.st))
+        return out
+
+    def got_inner_havoc(l):
+        keys = [k for k in l.st.ghost if isinstance(k, tuple) and k[0] == 'body']
+        g = dict(l.st.ghost[keys[-1]])
+        g['pos'] = z3.Int(fresh_name('body_pos'))
+        l.st.ghost[keys[-1]] = g
+        havoc_stream_link(l)
+        it = l.ghost.get('iterator')
+        if it is not None:
+            l.st.obj(it).fields['_num_reads'] = z3.Int(fresh_name('num_reads'))
+
+    def got_inner_iteration(l0, l1, evs):
+        g0, g1 = body_of_attempt(l0.st), body_of_attempt(l1.st)
+        io = [e for e in evs if e.kind == 'call' and (e.name.endswith('queue_file_io_task') or e.name.endswith('get_io_write_task'))]
+        rd = [e for e in evs if e.kind == 'ext' and e.name == 'respdict.read']
+        out = {'one_network_read_per_chunk': (B(len(rd) == 1), ['C02'])}
+        if len(io) == 1:
+            env = io[0].extra['env']
+            d = env['data']
+            out['chunk_goes_to_io_at_start_index_plus_prefix_delivered'] = (z3.And(
+                to_int_term(env['offset']) == to_int_term(l0.st.env['start_index']) + g0['pos'],
+                to_int_term(d.lo) == g0['start'] + g0['pos'], to_int_term(d.hi) == g1['start'] + g1['pos'],
+                B(env['fileobj'] is l1.st.env['fileobj'])), ['C02', 'C16'])
+        # C09: progress reported in this iteration == bytes read
+        from .a_windows import reported
+        out['progress_reported_equals_bytes_read'] = (reported(evs) == g1['pos'] - g0['pos'], ['C09'])
+        out['at_most_one_io_request_per_chunk'] = (B(len(io) <= 1), ['C02'])
+        out['chunk_not_larger_than_io_chunksize'] = (g1['pos'] - g0['pos'] <= to_int_term(l1.st.env['io_chunksize']), ['C11'])
+        return out
+
+    def got_outer_iteration(l0, l1, evs):
+        """A completed outer iteration is one attempt that ended in a retryable stream error."""
+        from .a_windows import reported
+        go = [e for e in flat(evs) if e.kind == 'ext' and e.name == 'client.get_object']
+        rb = [e for e in evs if e.kind == 'call' and e.name.endswith('invoke_progress_callbacks')]
+        return {
+            'one_get_object_per_attempt': (B(len(go) == 1), ['C03', 'C02']),
+            # progress of the abandoned attempt is taken back: exactly start_index - current_index
+            'abandoned_attempt_progress_is_taken_back': (B(len(rb) >= 1) if not rb else (
+                to_int_term(rb[-1].extra['env']['bytes_transferred']) ==
+                to_int_term(l1.st.env['start_index']) - to_int_term(l1.st.env['current_index'])), ['C09']),
+        }
+
+    def got_outer_havoc(l):
+        havoc_stream_link(l)
+
+    def is_streaming(st, mgr):
+        return isinstance(mgr, Ref) and st.obj(mgr).kind == 'obj' and st.obj(mgr).cls.name in (
+            'DownloadNonSeekableOutputManager', 'DownloadSpecialFilenameOutputManager')
+
+    def stream_link(st):
+        """For streaming destinations: what the defer queue released is what the stream received."""
+        mgr = st.env.get('download_output_manager')
+        if not is_streaming(st, mgr):
+            return {}
+        from pyvc.contracts import View
+        return {'released_by_the_queue_is_what_the_stream_received': released_eq_streamed(View(None, st), mgr, st.env['fileobj'])}
+
+    def havoc_stream_link(l):
+        st = l.st
+        mgr = st.env.get('download_output_manager')
+        if is_streaming(st, mgr):
+            st.ghost[('streamed', st.env['fileobj'].label)] = z3.Int(fresh_name('streamed'))
+            q = st.obj(st.obj(mgr).fields['_defer_queue'])
+            q.fields['_next_offset'] = z3.Int(fresh_name('next_offset'))
+
+    def got_setup(eng, st, args, self_val):
+        streamed(st, args['fileobj'])
+        mgr = args['download_output_manager']
+        if is_streaming(st, mgr):
+            from pyvc.contracts import View
+            st.assume(released_eq_streamed(View(eng, st), mgr, args['fileobj']))
+        st.ghost['get_object_start'] = to_int_term(args['start_index'])
+        st.assume(args['start_index'] >= 0)
+        st.assume(args['max_attempts'] > 0)
+        st.assume(args['io_chunksize'] > 0)
+
+    def got_checks(c):
+        tr = c.trace
+        done_reads = [e for e in flat(tr) if e.kind == 'read' and e.name == '_status']
+        g = body_of_attempt(c.new.st)
+        from .a_common import DONE, status_in
+        stopped_by_done = z3.Or([status_in(e.result, DONE) for e in done_reads[-1:]]) if done_reads else B(False)
+        out = {
+            # success (normal return) either because the transfer was already done elsewhere, or the last
+            # attempt delivered its whole body
+            'normal_return_means_whole_body_delivered_or_transfer_done': (
+                z3.Or(stopped_by_done, g['pos'] == g['len']) if g is not None else B(False), ['C02', 'C03']),
+        }
+        return out
+
+    def got_raises_retries(c):
+        loops = [e for e in c.trace if e.kind == 'loop']
+        return {'only_after_the_attempt_budget_is_used_up': (B(
+            len(loops) >= 1 and c.trace and c.trace[-1].kind == 'raise'), ['C03']),
+            'wraps_the_last_stream_error': (B('last_exception' in c.exc.attrs), ['C03'])}
+
+    R.contract(
+        f'{GOT}._main', props=['C02', 'C03', 'C09', 'C16', 'C10', 'C15'],
+        params=dict(client=ExtT('client'), bucket=ExtT('str'), key=ExtT('str'), fileobj=ExtT('destfile'), extra_args=EXTRA,
+                    callbacks=ListOfT(ExtT('progress_cb')), max_attempts=Int, download_output_manager=Any, io_chunksize=Int,
+                    start_index=Int, bandwidth_limiter=Const(None)),
+        param_alternatives=dict(MGR_DL, self=[('queued', ObjT(GOT)), ('immediate', ObjT(f'{DL}:ImmediatelyWriteIOGetObjectTask'))]),
+        setup=got_setup, checks=got_checks,
+        raises={'s3transfer.exceptions:RetriesExceededError': got_raises_retries, 'Exception': lambda c: {}},
+        raise_when={'Exception': lambda c: None},
+        loops={0: LoopSpec(invariant=lambda l: stream_link(l.st), iteration_checks=got_outer_iteration, havoc_heap=got_outer_havoc,
+                           local_types={'last_exception': OptT(ExtT('exception')), 'current_index': Int}),
+               1: LoopSpec(invariant=got_inner_inv, havoc_heap=got_inner_havoc, iteration_checks=got_inner_iteration)},
+    )
+
+    # ================================================================== download submission
+    DST = f'{DL}:DownloadSubmissionTask'
+    OSU = f'{UT}:OSUtils'
+    DL_PARAMS = dict(client=ExtT('client'), config=ObjT(CFG), osutil=ObjT(OSU), request_executor=ExtT('bounded_executor'),
+                     io_executor=ExtT('bounded_executor'), transfer_future=ObjT(TF))
+    BWL_T = OptT(ObjT('s3transfer.bandwidth:BandwidthLimiter'))
+    R.contract(f'{OSU}.is_special_file', params=dict(filename=ExtT('fileobj_or_name')), events=False,
+               returns=lambda c, st: c.engine.opaque_pred(c.a_filename, 'is_special_file'))
+    R.contract(f'{OSU}.get_temp_filename', params=dict(filename=ExtT('fileobj_or_name')),
+               returns=lambda c, st: Opaque(z3.Function('temp_name_of', U, U)(c.a_filename.term), kind='str', label='temp(' + c.a_filename.label + ')'))
+    for cls in (DFN, DSK, DNS, DSP):
+        R.mark_inline(f'{cls}.is_compatible', f'{cls}.__init__', f'{cls}.get_fileobj_for_io_writes', f'{cls}.get_final_io_task',
+                      f'{cls}.get_download_task_tag')
+    R.mark_inline(f'{DOM}.__init__', f'{DOM}.get_download_task_tag', f'{DOM}._get_fileobj_from_filename', f'{DFN}._get_temp_fileobj',
+                  f'{DST}._get_download_output_manager_cls', f'{DST}._get_final_io_task_submission_callback',
+                  f'{DL}:CompleteDownloadNOOPTask.__init__')
+    for q in ('_submit_download_request', '_submit_ranged_download_request'):
+        R.contract(f'{DST}.{q}', params=dict(DL_PARAMS, download_output_manager=Any, bandwidth_limiter=BWL_T),
+                   requires=lambda c: [('transfer_size_is_known', z3.Not(is_none(c.old.f(c.old.f(c.a_transfer_future, '_meta'), '_size'))))],
+                   raise_when={'Exception': lambda c: None})
+
+    def dl_submit_checks(c):
+        tr = c.trace
+        single, multi = calls(tr, '_submit_download_request'), calls(tr, '_submit_ranged_download_request')
+        head = exts(tr, 'client.head_object')
+        meta0 = c.old.f(c.a_transfer_future, '_meta')
+        cargs = c.old.f(meta0, '_call_args')
+        size0 = c.old.f(meta0, '_size')
+        size1 = optval(c.new.f(c.new.f(c.a_transfer_future, '_meta'), '_size'))
+        thr = c.old.f(c.a_config, 'multipart_threshold')
+        fo = c.old.f(cargs, 'fileobj')
+        eng = c.engine
+        out = {
+            'exactly_one_mode': (B(len(single) + len(multi) == 1), ['C14', 'C04']),
+            'head_object_iff_size_unknown': (z3.If(is_none(size0), B(len(head) == 1), B(len(head) == 0)), ['C08', 'C10']),
+            'ranged_iff_size_at_least_threshold': ((size1 >= thr) if multi else (size1 < thr), ['C14']),
+        }
+        if head:
+            sp = head[0].extra.get('splat')
+            m = c.old.st.obj(c.old.f(cargs, 'extra_args')).meta
+            out['head_object_gets_bucket_key_and_the_users_extra_args'] = (B(
+                head[0].recv is c.a_client and head[0].kwargs.get('Bucket') is c.old.f(cargs, 'bucket')
+                and head[0].kwargs.get('Key') is c.old.f(cargs, 'key') and sp is not None
+                and sp['present'].eq(m['present']) and sp['vals'].eq(m['vals'])), ['C15'])
+        ev = single + multi
+        if len(ev) == 1:
+            cls = c.new.obj(ev[0].extra['env']['download_output_manager']).cls.name
+            is_str = eng.opaque_pred(fo, 'is_str')
+            special = z3.And(is_str, eng.opaque_pred(fo, 'is_special_file'))
+            want = z3.If(special, B(cls == 'DownloadSpecialFilenameOutputManager'),
+                         z3.If(is_str, B(cls == 'DownloadFilenameOutputManager'),
+                               z3.If(eng.opaque_pred(fo, 'is_seekable'), B(cls == 'DownloadSeekableOutputManager'),
+                                     B(cls == 'DownloadNonSeekableOutputManager'))))
+            out['output_manager_matches_destination_kind'] = (want, ['C02', 'C06', 'C11'])
+        return out
+
+    R.contract(
+        f'{DST}._submit', props=['C14', 'C15', 'C08', 'C04', 'C10', 'C02', 'C06', 'C11'],
+        params=dict(DL_PARAMS, bandwidth_limiter=BWL_T), checks=dl_submit_checks,
+        inline_callees=[f'{DL}:DeferQueue.__init__'],
+        raises={'Exception': lambda c: {}},
+    )
+
+    # ---- single GET
+    def final_task_facts(c, view, task):
+        """(class name, is_final) of a final IO task object."""
+        h = view.obj(task)
+        return h.cls.name, h.fields['_is_final'] is True
+
+    def cleanup_regs(tr):
+        return calls(tr, 'TransferCoordinator.add_failure_cleanup')
+
+    def temp_file_facts(c, mgr_cls, tr, fileobj, cargs):
+        """C06: path destinations write to a temp file next to the final name; close + remove are registered
+        as failure cleanups before anything can touch the file."""
+        out = {}
+        regs = cleanup_regs(tr)
+        if mgr_cls == 'DownloadFilenameOutputManager':
+            fh = c.new.obj(fileobj)
+            final = c.old.f(cargs, 'fileobj')
+            tmp = fh.fields.get('_filename')
+            ok_tmp = fh.cls.name == 'DeferredOpenFile' and isinstance(tmp, Opaque) and z3.eq(
+                tmp.term, z3.Function('temp_name_of', U, U)(final.term)) and fh.fields.get('_mode') == 'wb'
+            out['writes_go_to_the_temp_file_of_the_destination'] = (B(bool(ok_tmp)), ['C06'])
+            fns = [r.extra['env']['function'] for r in regs]
+            okc = len(regs) == 2 and isinstance(fns[0], BoundMethod) and fns[0].self_val == fileobj and fns[0].finfo.name == 'close' \
+                and isinstance(fns[1], BoundMethod) and fns[1].finfo.name == 'remove_file' and regs[1].extra['env']['args'] == (tmp,)
+            out['close_and_remove_temp_registered_as_failure_cleanups'] = (B(bool(okc)), ['C06', 'C05'])
+        elif mgr_cls == 'DownloadSpecialFilenameOutputManager':
+            fns = [r.extra['env']['function'] for r in regs]
+            out['close_registered_as_failure_cleanup'] = (B(len(regs) == 1 and isinstance(fns[0], BoundMethod) and fns[0].finfo.name == 'close'), ['C06'])
+        else:
+            out['no_files_created_for_stream_destinations'] = (B(len(regs) == 0), ['C06'])
+        return out
+
+    def expected_final(mgr_cls):
+        return {'DownloadFilenameOutputManager': 'IORenameFileTask', 'DownloadSeekableOutputManager': 'CompleteDownloadNOOPTask',
+                'DownloadNonSeekableOutputManager': 'CompleteDownloadNOOPTask', 'DownloadSpecialFilenameOutputManager': 'IOCloseTask'}[mgr_cls]
+
+    def dl_single_checks(c):
+        tr = c.trace
+        sub = submits(tr)
+        out = {'exactly_one_get_object_task_submitted': (B(len(sub) == 1), ['C04', 'C02', 'C10'])}
+        if len(sub) != 1:
+            return out
+        name, th = task_of(c, sub[0])
+        mk = task_main_kwargs(c, sub[0])
+        cargs = c.old.f(c.old.f(c.a_transfer_future, '_meta'), '_call_args')
+        mgr_cls = c.new.obj(c.a_download_output_manager).cls.name
+        dcb = th.fields['_done_callbacks']
+        dcbs = c.new.obj(dcb).items if isinstance(dcb, Ref) else []
+        out['immediate_write_task_to_the_request_executor_not_final'] = (B(
+            name == 'ImmediatelyWriteIOGetObjectTask' and th.fields['_is_final'] is False
+            and sub[0].extra['env']['executor'] is c.a_request_executor), ['C10', 'C04'])
+        okf = len(dcbs) == 1 and isinstance(dcbs[0], Ref)
+        if okf:
+            fname, ffinal = final_task_facts(c, c.new, dcbs[0])
+            okf = ffinal and fname == expected_final(mgr_cls)
+        out['single_final_io_task_runs_when_the_get_object_task_is_done'] = (B(bool(okf)), ['C04', 'C06', 'C08'])
+        out['requests_the_users_object_with_the_users_extra_args'] = (B(
+            mk.get('bucket') is c.old.f(cargs, 'bucket') and mk.get('key') is c.old.f(cargs, 'key') and mk.get('client') is c.a_client
+            and mk.get('extra_args') is c.old.f(cargs, 'extra_args')), ['C02', 'C15'])
+        out['attempt_budget_and_chunk_size_from_config'] = (B(
+            mk.get('max_attempts') is c.old.f(c.a_config, 'num_download_attempts') and mk.get('io_chunksize') is c.old.f(c.a_config, 'io_chunksize')
+            and 'start_index' not in mk and mk.get('download_output_manager') is c.a_download_output_manager), ['C03', 'C02', 'C11'])
+        tag = sub[0].extra['env']['tag']
+        streaming = mgr_cls in ('DownloadNonSeekableOutputManager', 'DownloadSpecialFilenameOutputManager')
+        out['stream_destinations_use_the_in_memory_download_tag'] = (z3.Not(is_none(tag)) == B(streaming), ['C11', 'C10'])
+        out.update(temp_file_facts(c, mgr_cls, tr, mk.get('fileobj'), cargs))
+        regs = cleanup_regs(tr)
+        out['cleanups_registered_before_the_task_is_submitted'] = (B(all(index_of(tr, r) < index_of(tr, sub[0]) for r in regs)), ['C06'])
+        if okf and mgr_cls == 'DownloadFilenameOutputManager':
+            fmk = c.new.obj(c.new.obj(dcbs[0]).fields['_main_kwargs']).items
+            out['rename_targets_the_destination_from_the_temp_file'] = (B(
+                fmk.get('fileobj') is mk.get('fileobj') and fmk.get('final_filename') is c.old.f(cargs, 'fileobj')), ['C06'])
+        return out
+
+    cds = R.contracts[f'{DST}._submit_download_request']
+    cds.checks, cds.raises = dl_single_checks, {'Exception': lambda c: {}}
+    cds.param_alternatives = MGR_DL
+    cds.props = ('C02', 'C03', 'C04', 'C06', 'C08', 'C10', 'C11', 'C15', 'C05')
+    cds.setup = lambda eng, st, args, self_val: st.assume(z3.Not(st.obj(st.obj(args['transfer_future']).fields['_meta']).fields['_size'].is_none))
+
+    # ---- ranged download
+    CCIq = f'{UT}:CountCallbackInvoker'
+    R.mark_inline(f'{CCIq}.__init__')
+
+    def dl_ranged_iteration(l0, l1, evs):
+        st1 = l1.st
+        env = st1.env
+        sub = [e for e in evs if e.kind == 'call' and e.name == f'{TC}.submit']
+        inc = [e for e in evs if e.kind == 'call' and e.name == f'{CCIq}.increment']
+        out = {'one_get_object_task_and_one_increment_per_part': (B(len(sub) == 1 and len(inc) == 1
+                                                                    and index_of(evs, inc[0]) < index_of(evs, sub[0])), ['C02', 'C04'])}
+        if len(sub) != 1:
+            return out
+        task = st1.obj(sub[0].extra['env']['task'])
+        mk = st1.obj(task.fields['_main_kwargs']).items
+        i = to_int_term(l0.index)
+        ps, n = env['part_size'], env['num_parts']
+        dcbs = st1.obj(task.fields['_done_callbacks']).items
+        out['task_is_a_get_object_task_not_final_to_the_request_executor'] = (B(
+            task.cls.name == 'GetObjectTask' and task.fields['_is_final'] is False
+            and sub[0].extra['env']['executor'] is env['request_executor']), ['C10', 'C04'])
+        out['done_callback_decrements_the_invoker'] = (B(
+            len(dcbs) == 1 and isinstance(dcbs[0], BoundMethod) and dcbs[0].finfo.name == 'decrement'
+            and dcbs[0].self_val == env['finalize_download_invoker']), ['C04', 'C06'])
+        out['writes_start_at_part_index_times_part_size'] = (to_int_term(mk['start_index']) == i * ps, ['C02', 'C14'])
+        # Range header of part i: closed for inner parts, open-ended for the last
+        xp, xv = map_arrays(l1.engine, st1, mk['extra_args'])
+        from .c14 import range_term
+        want = z3.If(i == to_int_term(n) - 1, range_term(l1.engine, i * ps), range_term(l1.engine, i * ps, (i + 1) * ps - 1))
+        up, uv = map_arrays(l1.engine, st1, st1.obj(env['call_args']).fields['extra_args'])
+        R_ = z3.StringVal('Range')
+        out['range_header_is_the_parts_window'] = (z3.And(z3.Select(xp, R_), z3.Select(xv, R_) == want), ['C02', 'C14'])
+        out['users_extra_args_forwarded_next_to_the_range'] = (z3.ForAll([kk_], z3.Implies(kk_ != R_, z3.And(
+            z3.Select(xp, kk_) == z3.Select(up, kk_), z3.Implies(z3.Select(up, kk_), z3.Select(xv, kk_) == z3.Select(uv, kk_))))), ['C15', 'C02'])
+        out['same_object_budget_and_chunk_size'] = (B(
+            mk.get('bucket') is st1.obj(env['call_args']).fields['bucket'] and mk.get('key') is st1.obj(env['call_args']).fields['key']
+            and mk.get('client') is env['client'] and mk.get('fileobj') is env['fileobj']
+            and mk.get('max_attempts') is st1.obj(env['config']).fields['num_download_attempts']
+            and mk.get('io_chunksize') is st1.obj(env['config']).fields['io_chunksize']
+            and mk.get('download_output_manager') is env['download_output_manager']), ['C02', 'C03', 'C11'])
+        tag = sub[0].extra['env']['tag']
+        mgr_cls = st1.obj(env['download_output_manager']).cls.name
+        out['stream_destinations_use_the_in_memory_download_tag'] = (
+            z3.Not(is_none(tag)) == B(mgr_cls in ('DownloadNonSeekableOutputManager', 'DownloadSpecialFilenameOutputManager')), ['C11', 'C10'])
+        return out
+
+    def dl_ranged_checks(c):
+        tr = c.trace
+        env = c.new.st.env
+        loops = [e for e in tr if e.kind == 'loop']
+        fin = calls(tr, 'CountCallbackInvoker.finalize')
+        cargs = c.old.f(c.old.f(c.a_transfer_future, '_meta'), '_call_args')
+        mgr_cls = c.new.obj(c.a_download_output_manager).cls.name
+        out = {
+            'no_task_submitted_outside_the_part_loop': (B(len(submits(tr)) == 0), ['C04', 'C10']),
+            'invoker_finalized_once_after_all_parts': (B(len(loops) == 1 and len(fin) == 1 and index_of(tr, fin[0]) > index_of(tr, loops[0])), ['C04', 'C06']),
+        }
+        size = optval(c.new.f(c.new.f(c.a_transfer_future, '_meta'), '_size'))
+        out['number_of_parts_is_ceil_size_over_chunksize'] = (B('num_parts' in env) if 'num_parts' not in env else z3.And(
+            is_ceil_div(env['num_parts'], size, env['part_size']), B(env['part_size'] is c.old.f(c.a_config, 'multipart_chunksize'))), ['C14', 'C02'])
+        # the invoker's callback submits the single final IO task to the IO executor
+        inv = env.get('finalize_download_invoker')
+        okcb = False
+        if isinstance(inv, Ref):
+            cb = c.new.obj(inv).fields.get('_callback')
+            if isinstance(cb, Ref) and c.new.obj(cb).cls.name == 'FunctionContainer':
+                fc = c.new.obj(cb)
+                a = fc.fields['_args']
+                fn = fc.fields['_func']
+                okcb = isinstance(fn, BoundMethod) and fn.finfo.name == 'submit' and len(a) == 2 and a[0] is c.a_io_executor \
+                    and isinstance(a[1], Ref) and final_task_facts(c, c.new, a[1]) == (expected_final(mgr_cls), True)
+        out['when_all_parts_are_done_the_single_final_io_task_goes_to_the_io_executor'] = (B(bool(okcb)), ['C04', 'C06', 'C10'])
+        out.update(temp_file_facts(c, mgr_cls, tr, env.get('fileobj'), cargs))
+        regs = cleanup_regs(tr)
+        out['cleanups_registered_before_any_part_is_submitted'] = (B(all(index_of(tr, r) < index_of(tr, loops[0]) for r in regs) if loops else False), ['C06'])
+        return out
+
+    def dl_ranged_setup(eng, st, args, self_val):
+        meta = st.obj(st.obj(args['transfer_future']).fields['_meta'])
+        st.assume(z3.Not(meta.fields['_size'].is_none))
+        st.assume(meta.fields['_size'].val < TWO53)
+        st.assume(st.obj(args['config']).fields['multipart_chunksize'] < TWO53)
+        # validated by TransferManager.download: 'Range' is not a user argument
+        m = st.obj(st.obj(meta.fields['_call_args']).fields['extra_args']).meta
+        st.assume(z3.Not(z3.Select(m['present'], z3.StringVal('Range'))))
+
+    cdr = R.contracts[f'{DST}._submit_ranged_download_request']
+    cdr.checks, cdr.raises = dl_ranged_checks, {'Exception': lambda c: {}}
+    cdr.param_alternatives = MGR_DL
+    cdr.props = ('C02', 'C03', 'C04', 'C06', 'C10', 'C11', 'C14', 'C15', 'C05')
+    cdr.setup = dl_ranged_setup
+    cdr.loops = {0: LoopSpec(invariant=lambda l: {}, iteration_checks=dl_ranged_iteration)}
+
+    # ================================================================== IO tasks and OS utilities (C06, C02)
+    def os_call(name, raises=('OSError',), returns=None):
+        def model(eng, st, args, kwargs, line):
+            from pyvc.engine import rs
+            out = []
+            for ecls in raises:
+                s2 = st.fork()
+                exc = ExcV(ecls, (), tag=fresh_name('os_exc'))
+                s2.trace.append(Event('ext', name, None, args, kwargs, None, line, s2.held, extra={'raised': exc}))
+                out.append(rs(exc, s2))
+            val = returns(eng, st, args) if returns else None
+            st.trace.append(Event('ext', name, None, args, kwargs, val, line, st.held))
+            out.append(ok(val, st))
+            return out
+        return model
+    R.builtin_models['os.remove'] = os_call('os.remove')
+    R.builtin_models['os.rename'] = os_call('os.rename')
+
+    def os_events(tr, name):
+        return [e for e in tr if e.kind == 'ext' and e.name == name]
+
+    R.contract(f'{OSU}.remove_file', props=['C06'], params=dict(filename=ExtT('str')),
+               checks=lambda c: {'removes_that_file_once': B(len(os_events(c.trace, 'os.remove')) == 1 and os_events(c.trace, 'os.remove')[0].args == (c.a_filename,))},
+               raises={})   # a missing file is not an error
+    R.contract(f'{OSU}.rename_file', props=['C06'], params=dict(current_filename=ExtT('str'), new_filename=ExtT('fileobj_or_name')),
+               checks=lambda c: {'one_atomic_rename_to_the_new_name': B(
+                   len(os_events(c.trace, 'os.rename')) == 1 and os_events(c.trace, 'os.rename')[0].args == (c.a_current_filename, c.a_new_filename)
+                   and len([e for e in c.trace if e.kind == 'ext']) == 1)},
+               raises={'OSError': lambda c: {}}, raise_when={'OSError': lambda c: None})
+
+    DOFq = f'{UT}:DeferredOpenFile'
+    R.add_fields(DOFq, _filename=ExtT('str'), _fileobj=OptT(ExtT('destfile')), _start_byte=Int, _mode=Str, _open_function=ExtT('open_fn'))
+    R.external('destfile', write=ExtSpec(raises=('Exception',)), seek=ExtSpec(raises=('Exception',)),
+               close=ExtSpec(raises=('Exception',)), read=ExtSpec(returns=ExtT('bytes'), raises=('Exception',)),
+               tell=ExtSpec(returns=Int, raises=('Exception',)))
+    R.external('open_fn', **{'()': ExtSpec(returns=ExtT('destfile'), raises=('OSError',))})
+    R.mark_inline(f'{DOFq}.close', f'{DOFq}.name', f'{DOFq}._open_if_needed', f'{DOFq}.write', f'{DOFq}.seek')
+
+    def rename_checks(c):
+        tr = c.trace
+        cl = exts(tr, 'destfile.close')
+        rn = calls(tr, 'OSUtils.rename_file')
+        opened = z3.Not(is_none(c.old.f(c.a_fileobj, '_fileobj')))
+        okr = len(rn) == 1 and rn[0].extra['env']['current_filename'] is c.old.f(c.a_fileobj, '_filename') \
+            and rn[0].extra['env']['new_filename'] is c.a_final_filename
+        return {
+            'temp_file_closed_before_the_rename': z3.If(opened, B(len(cl) == 1 and bool(rn) and index_of(tr, cl[0]) < index_of(tr, rn[0])), B(len(cl) == 0)),
+            'publishes_by_one_rename_of_the_temp_file_to_the_destination': B(bool(okr)),
+            'touches_the_destination_name_only_through_the_rename': B(all(e is rn[0] or e in cl for e in tr if e.kind in ('ext', 'call')) if rn else False),
+        }
+
+    R.contract(f'{DL}:IORenameFileTask._main', props=['C06'],
+               params=dict(fileobj=ObjT(DOFq), final_filename=ExtT('fileobj_or_name'), osutil=ObjT(OSU)),
+               checks=rename_checks, raises={'Exception': lambda c: {'destination_untouched_unless_renamed': B(True)}},
+               raise_when={'Exception': lambda c: None})
+    R.contract(f'{DL}:IOCloseTask._main', props=['C06'], params=dict(fileobj=ObjT(DOFq)),
+               checks=lambda c: {'closes_the_file_if_it_was_opened': z3.If(z3.Not(is_none(c.old.f(c.a_fileobj, '_fileobj'))),
+                                                                           B(len(exts(c.trace, 'destfile.close')) == 1), B(len(exts(c.trace, 'destfile.close')) == 0))},
+               raises={'Exception': lambda c: {}}, raise_when={'Exception': lambda c: None})
+
+    def iowrite_checks(c):
+        tr = [e for e in c.trace if e.kind == 'ext']
+        okk = len(tr) == 2 and tr[0].name == 'destfile.seek' and tr[0].args == (c.a_offset,) and tr[1].name == 'destfile.write' and tr[1].args == (c.a_data,)
+        return {'seeks_to_the_offset_then_writes_the_data': B(okk)}
+
+    R.contract(f'{DL}:IOWriteTask._main', props=['C02', 'C06'], params=dict(fileobj=ExtT('destfile'), data=BytesT('obj'), offset=Int),
+               checks=iowrite_checks, raises={'Exception': lambda c: {}}, raise_when={'Exception': lambda c: None})
+    R.contract(f'{DL}:IOStreamingWriteTask._main', props=['C02', 'C16'], params=dict(fileobj=ExtT('destfile'), data=BytesT('obj')),
+               checks=lambda c: {'appends_the_data_without_seeking': B(
+                   [(e.name, e.args) for e in c.trace if e.kind == 'ext'] == [('destfile.write', (c.a_data,))])},
+               raises={'Exception': lambda c: {}}, raise_when={'Exception': lambda c: None})
+
+    # ================================================================== delete
+    DET = f'{DE}:DeleteSubmissionTask'
+
+    def del_checks(c):
+        sub = submits(c.trace)
+        okk = len(sub) == 1 and task_of(c, sub[0])[0] == 'DeleteObjectTask' and is_final(c, sub[0]) and sub[0].extra['env']['executor'] is c.a_request_executor
+        out = {'exactly_one_final_delete_task_to_the_request_executor': (B(bool(okk)), ['C04', 'C10'])}
+        if len(sub) == 1:
+            mk = task_main_kwargs(c, sub[0])
+            cargs = c.old.f(c.old.f(c.a_transfer_future, '_meta'), '_call_args')
+            out['deletes_the_users_object_with_the_users_extra_args'] = (B(
+                mk.get('bucket') is c.old.f(cargs, 'bucket') and mk.get('key') is c.old.f(cargs, 'key')
+                and mk.get('extra_args') is c.old.f(cargs, 'extra_args') and mk.get('client') is c.a_client), ['C15'])
+        return out
+
+    R.contract(f'{DET}._submit', props=['C04', 'C10', 'C15'],
+               params=dict(client=ExtT('client'), request_executor=ExtT('bounded_executor'), transfer_future=ObjT(TF)),
+               checks=del_checks, raises={'Exception': lambda c: {}})
+
+    def simple_op_checks(op, fixed):
+        def chk(c):
+            ev = exts(c.trace, f'client.{op}')
+            okk = len(ev) == 1 and set(k for k in ev[0].kwargs if k != '**') == set(fixed) and all(
+                ev[0].kwargs[k] is c.args[v] for k, v in fixed.items())
+            return {
+                f'one_{op}_request_for_the_object': (B(bool(okk)), ['C10', 'C01']),
+                'extra_args_forwarded_unmodified': (B(bool(okk) and splat_is(ev[0], c.old.st, c.a_extra_args)), ['C15']),
+                'no_other_request': (B(len([e for e in flat(c.trace) if e.kind == 'ext' and e.name.startswith('client.')]) == 1), ['C10', 'C15']),
+            }
+        return chk
+
+    R.contract(f'{DE}:DeleteObjectTask._main', props=['C10', 'C15'],
+               params=dict(client=ExtT('client'), bucket=ExtT('str'), key=ExtT('str'), extra_args=EXTRA),
+               checks=simple_op_checks('delete_object', {'Bucket': 'bucket', 'Key': 'key'}),
+               raises={'Exception': lambda c: {}}, raise_when={'Exception': lambda c: None})
+
+    def copy_obj_checks(c):
+        from .a_windows import reported
+        out = simple_op_checks('copy_object', {'CopySource': 'copy_source', 'Bucket': 'bucket', 'Key': 'key'})(c)
+        ev = exts(c.trace, 'client.copy_object')
+        loops = [e for e in c.trace if e.kind == 'loop']
+        okp = len(loops) == 1 and bool(ev) and index_of(c.trace, loops[0]) > index_of(c.trace, ev[0]) and all(
+            len([x for x in alt if x.kind == 'ext']) == 1 and [x for x in alt if x.kind == 'ext'][0].kwargs.get('bytes_transferred') is c.a_size
+            for alt in loops[0].alts)
+        out['each_progress_callback_gets_the_whole_size_after_the_copy_returned'] = (B(bool(okp)), ['C09'])
+        return out
+
+    R.contract(f'{CP}:CopyObjectTask._main', props=['C01', 'C09', 'C10', 'C15'],
+               params=dict(client=ExtT('client'), copy_source=Any, bucket=ExtT('str'), key=ExtT('str'), extra_args=EXTRA,
+                           callbacks=ListOfT(ExtT('progress_cb')), size=Int),
+               checks=copy_obj_checks, raises={'Exception': lambda c: {}}, raise_when={'Exception': lambda c: None},
+               loops={0: trivial_loop()})
+
+    def copy_part_checks(c):
+        ev = exts(c.trace, 'client.upload_part_copy')
+        fixed = {'CopySource': 'copy_source', 'Bucket': 'bucket', 'Key': 'key', 'UploadId': 'upload_id', 'PartNumber': 'part_number'}
+        okk = len(ev) == 1 and ev[0].extra.get('raised') is None and set(k for k in ev[0].kwargs if k != '**') == set(fixed) and all(
+            ev[0].kwargs[k] is c.args[v] for k, v in fixed.items())
+        res = c.new.obj(c.result).items if isinstance(c.result, Ref) else {}
+        loops = [e for e in c.trace if e.kind == 'loop']
+        okp = len(loops) == 1 and bool(ev) and index_of(c.trace, loops[0]) > index_of(c.trace, ev[0]) and all(
+            len([x for x in alt if x.kind == 'ext']) == 1 and [x for x in alt if x.kind == 'ext'][0].kwargs.get('bytes_transferred') is c.a_size
+            for alt in loops[0].alts)
+        return {
+            'one_upload_part_copy_for_this_part': (B(bool(okk)), ['C01', 'C05', 'C10']),
+            'extra_args_forwarded_unmodified': (B(bool(okk) and splat_is(ev[0], c.old.st, c.a_extra_args)), ['C15']),
+            'returns_etag_of_the_copy_result_and_the_part_number': (B(
+                bool(okk) and res.get('PartNumber') is c.a_part_number and isinstance(res.get('ETag'), Opaque)
+                and len(set(res) - {'ETag', 'PartNumber'}) <= 1), ['C01']),
+            'part_checksum_only_with_an_algorithm_in_use': (implies(B(len(set(res) - {'ETag', 'PartNumber'}) > 0),
+                                                                    b2z(c.engine.truthy(c.a_checksum_algorithm, c.new.st))), ['C01']),
+            'each_progress_callback_gets_the_part_size_after_the_request_returned': (B(bool(okp)), ['C09']),
+        }
+
+    R.contract(f'{CP}:CopyPartTask._main', props=['C01', 'C05', 'C09', 'C10', 'C15'],
+               params=dict(client=ExtT('client'), copy_source=Any, bucket=ExtT('str'), key=ExtT('str'), upload_id=ExtT('upload_id'),
+                           part_number=Int, extra_args=EXTRA, callbacks=ListOfT(ExtT('progress_cb')), size=Int,
+                           checksum_algorithm=OptT(ExtT('argval'))),
+               checks=copy_part_checks, raises={'Exception': lambda c: {}}, raise_when={'Exception': lambda c: None},
+               loops={0: trivial_loop()}, returns=ExtT('part'))
+    R.external('argval', upper=ExtSpec(returns=ExtT('str'), pure=True))
+    R.external('progress_cb', **{'()': ExtSpec(raises=('Exception',), user_code=True)})
 
 
 SUBMIT_ROOTS = []
